@@ -30,12 +30,11 @@ namespace Fv.Log
 
 abbrev Name := List Char
 abbrev Appender := Nat
-abbrev Level := Nat
 
 /-- `LoggerInternal` (config/processed.rs) for a logger other than `root`. -/
 structure Logger where
   name : Name
-  level : Level
+  level : Nat
   appenders : List Appender
   additive : Bool
 deriving DecidableEq, Repr
@@ -46,13 +45,13 @@ structure Config where
   appenders : List Appender
   /-- the non-root entries of `ConfigInternal.loggers`, in HashMap iteration order -/
   loggers : List Logger
-  rootLevel : Level
+  rootLevel : Nat
   rootAppenders : List Appender
 deriving Repr
 
 structure Event where
   target : Name
-  level : Level
+  level : Nat
 deriving DecidableEq, Repr
 
 /-- What the HashMaps and `process_raw_config`'s validation guarantee: distinct appender keys,
@@ -82,12 +81,12 @@ def targetMatchesPrefix (target pfx : Name) : Bool :=
   | none => false
 
 /-- one entry of `PerAppenderFilter.rules`: prefix ↦ (level, additive). -/
-abbrev Rule := Name × Level × Bool
+abbrev Rule := Name × Nat × Bool
 
 /-- `PerAppenderFilter`. -/
 structure Filter where
   rules : List Rule
-  defaultLevel : Level
+  defaultLevel : Nat
 deriving Repr
 
 /-- init.rs `build_filter_for_appender`. -/
@@ -109,7 +108,7 @@ def findMostSpecificRule (f : Filter) (target : Name) : Option Rule :=
   maxByLen (f.rules.filter (fun r => targetMatchesPrefix target r.1))
 
 /-- `PerAppenderFilter::max_level`. -/
-def Filter.maxLevel (f : Filter) : Level :=
+def Filter.maxLevel (f : Filter) : Nat :=
   (f.rules.map (fun r => r.2.1)).foldl max f.defaultLevel
 
 /-- `PerAppenderFilter::enabled`. -/
@@ -123,7 +122,7 @@ def actors (cfg : Config) : List (Appender × Filter) :=
   cfg.appenders.map (fun a => (a, buildFilter cfg a))
 
 /-- `EventProcessor::new`: `max_level` = max over actors, `OFF` if there are none. -/
-def maxLevel (cfg : Config) : Level :=
+def maxLevel (cfg : Config) : Nat :=
   ((actors cfg).map (fun a => a.2.maxLevel)).foldl max 0
 
 /-- `EventProcessor::event_enabled`. -/
@@ -184,11 +183,11 @@ def LogLevel.toNat : LogLevel → Nat
   | .error => 1 | .warn => 2 | .info => 3 | .debug => 4 | .trace => 5
 
 /-- the `match record.level()` in `LogHandler::build_log_event`. -/
-def logLevelToTracing : LogLevel → Level
+def logLevelToTracing : LogLevel → Nat
   | .error => 1 | .warn => 2 | .info => 3 | .debug => 4 | .trace => 5
 
 /-- init.rs `tracing_filter_to_log_filter` (result as `log::LevelFilter` number). -/
-def tracingFilterToLogFilter (f : Level) : Nat :=
+def tracingFilterToLogFilter (f : Nat) : Nat :=
   if f = 0 then 0 else if f = 1 then 1 else if f = 2 then 2 else if f = 3 then 3
   else if f = 4 then 4 else 5
 
@@ -204,7 +203,7 @@ def emitLog (cfg : Config) (target : Name) (lvl : LogLevel) : List Appender :=
 /-- A `tracing` event: the macro checks the global max-level hint (`max_level_hint`), the callsite
 interest / `enabled` (`DispatchLayer::enabled` = `event_enabled` for events), then `on_event`
 calls `process_event` with the callsite's metadata. -/
-def emitTracing (cfg : Config) (target : Name) (lvl : Level) : List Appender :=
+def emitTracing (cfg : Config) (target : Name) (lvl : Nat) : List Appender :=
   let ev : Event := { target := target, level := lvl }
   if maxLevel cfg < lvl then []
   else if !eventEnabled cfg ev then []
